@@ -36,6 +36,10 @@ func TestVerifC04Storage(t *testing.T) {
 		dir, cleanup := simTempDir()
 		defer cleanup()
 		s := newSimSys(t, dir)
+		realStores := simWantReal(rapid.IntRange(0, 9).Draw(t, "realStores"))
+		if realStores {
+			defer simAttachRealStores(s, dir)()
+		}
 		s.auditNames = true
 		s.auditOnPublish = true
 		h := &simHist{s: s, opts: simHistOpts{MaxRounds: 7, ClockFaults: false, Faults: true, Shapes: c04Shapes}}
@@ -60,6 +64,9 @@ func TestVerifC04Storage(t *testing.T) {
 		} else if h.in != nil {
 			h.in.close()
 		}
+		if err == nil && realStores {
+			err = simCompareRealDir(s, dir)
+		}
 		if err != nil {
 			t.Fatalf("C04 violated: %v\nhistory:\n  %s", err, strings.Join(h.st.Desc, "\n  "))
 		}
@@ -82,6 +89,7 @@ func TestVerifC04Storage(t *testing.T) {
 				cls = append(cls, name)
 			}
 		}
+		add(realStores, "real-LocalBackend+SQLite")
 		add(partialToFull, "partial->full-transition")
 		add(pre > 0, "has-precert")
 		add(iss > 0, "has-issuers")
